@@ -263,6 +263,8 @@ def isolated_replay(drv, case):
     process state even when the code under test keeps state between calls."""
     import pickle
 
+    if isinstance(case, dict) and case.get("pyopt"):
+        return replay_opt(drv.ID, case)
     r, w = os.pipe()
     pid = os.fork()
     if pid == 0:
@@ -318,6 +320,75 @@ def shard_replay(drv, shard, case):
     return out if status == "ok" else []
 
 
+def _work_file(prefix, suffix):
+    import tempfile
+
+    d = VERIF / ".work"
+    d.mkdir(exist_ok=True)
+    fd, path = tempfile.mkstemp(prefix=prefix, suffix=suffix, dir=str(d))
+    os.close(fd)
+    return path
+
+
+def run_opt_pass(prop_id, tier, shards):
+    """Run `shards` of the driver in a child interpreter started with -O (assert statements and `if __debug__` blocks
+    removed) and return its statistics; every violation's case is tagged so that it is replayed in the same mode."""
+    import pickle
+
+    st = Stats()
+    if not shards:
+        return st
+    path = _work_file("opt-", ".json")
+    try:
+        Path(path).write_text(json.dumps(shards))
+        r = subprocess.run([sys.executable, "-O", "-m", "mc.optpass", "shards", prop_id, tier, path], cwd=str(VERIF), capture_output=True, text=True)
+        if r.returncode != 0 or not os.path.exists(path + ".out"):
+            st.extra["harness_errors"] = [f"-O pass failed: {r.stderr[-1500:]}"]
+            return st
+        with open(path + ".out", "rb") as f:
+            st = pickle.load(f)
+    finally:
+        for q in (path, path + ".out"):
+            if os.path.exists(q):
+                os.unlink(q)
+    for v in st.violations:
+        v["case"] = dict(v["case"], pyopt=1)
+        v["msg"] = "[python -O] " + v["msg"]
+        v["label"] = "O-" + v["label"]
+        v["fingerprint"] = "O-" + v["fingerprint"]
+        v.pop("shard", None)
+    st.label_counts = {"O-" + k: n for k, n in st.label_counts.items()}
+    st.fp_counts = {"O-" + k: n for k, n in st.fp_counts.items()}
+    parts = {}
+    for k, d in st.parts.items():
+        parts["pyopt:" + k] = d
+    st.parts = parts
+    st.extra.pop("cpu_s", None)
+    return st
+
+
+def replay_opt(prop_id, case):
+    import pickle
+
+    path = _work_file("optr-", ".json")
+    try:
+        c = dict(case)
+        c.pop("pyopt", None)
+        Path(path).write_text(json.dumps(c))
+        r = subprocess.run([sys.executable, "-O", "-m", "mc.optpass", "replay", prop_id, path], cwd=str(VERIF), capture_output=True, text=True)
+        if r.returncode != 0 or not os.path.exists(path + ".out"):
+            raise RuntimeError(f"-O replay failed: {r.stderr[-800:]}")
+        with open(path + ".out", "rb") as f:
+            out = pickle.load(f)
+    finally:
+        for q in (path, path + ".out"):
+            if os.path.exists(q):
+                os.unlink(q)
+    for x in out:
+        x["msg"] = "[python -O] " + x["msg"]
+    return out
+
+
 def load_driver(prop_id):
     import importlib
 
@@ -325,6 +396,8 @@ def load_driver(prop_id):
 
 
 def replay_case(prop_id, case, shard=None):
+    if isinstance(case, dict) and case.get("pyopt"):
+        return replay_opt(prop_id, case)
     drv = load_driver(prop_id)
     if hasattr(drv, "setup"):
         drv.setup("replay", 0)
@@ -457,6 +530,8 @@ def run_check(prop_id, tier="quick", seed=0, jobs=None):
         drv.setup(tier, seed)
     shards = drv.shards(tier, seed)
     st = run_shards(drv, shards, seed=seed, jobs=jobs)
+    if hasattr(drv, "opt_shards"):
+        st.merge(run_opt_pass(prop_id, tier, drv.opt_shards(tier)))
     if hasattr(drv, "finalize"):
         drv.finalize(st, tier, seed)
     herr = st.extra.get("harness_errors")
